@@ -437,7 +437,16 @@ impl DateTime {
         date_time = date_time.set_time(Time::from_nanos(nanoseconds)?);
 
         if let Some(offset) = time.offset {
-            date_time = date_time.as_offset(Offset::from_seconds(offset)?);
+            let offset = Offset::from_seconds(offset)?;
+            // The parsed fields are local to the parsed offset, converting them to UTC can leave the valid range
+            let (days, nanoseconds) = nanos_to_days_nanos(
+                date_time.as_nanos() - offset.resolve() as i128 * NANOS_PER_SEC as i128,
+            )?;
+            date_time = Self {
+                days,
+                nanoseconds,
+                offset,
+            };
         }
 
         Ok(date_time)
